@@ -47,6 +47,9 @@ fn defs() -> Vec<Def> {
         Def { name: "empty", q: sel(vec![item(a()), item(b())], table("t")).wher(bin("=", int(0), int(1))).q(), col_list: None, cols: ii("a", "b"), class: "empty result" },
         Def { name: "alias", q: sel(vec![item_as(a(), "x"), item_as(b(), "y")], table("t")).q(), col_list: None, cols: ii("x", "y"), class: "projection" },
         Def { name: "collist", q: sel(vec![item(a()), item(b())], table("t")).q(), col_list: Some(vec!["x", "y"]), cols: ii("x", "y"), class: "explicit column list" },
+        // an explicit column list over a wildcard body, with fresh names and with the base names permuted
+        Def { name: "collist_star", q: sel(vec![Item::Star], table("u")).q(), col_list: Some(vec!["x", "y"]), cols: ii("x", "y"), class: "explicit column list" },
+        Def { name: "collist_star_swap", q: sel(vec![Item::Star], table("u")).q(), col_list: Some(vec!["d", "a"]), cols: ii("d", "a"), class: "explicit column list" },
         Def { name: "swapnames", q: sel(vec![item_as(b(), "a"), item_as(a(), "b")], table("t")).q(), col_list: None, cols: ii("a", "b"), class: "projection" },
         Def { name: "expr", q: sel(vec![item_as(bin("+", a(), b()), "s"), item(a())], table("t")).q(), col_list: None, cols: ii("s", "a"), class: "expression columns" },
         Def { name: "const", q: sel(vec![item_as(int(1), "one"), item(a())], table("t")).q(), col_list: None, cols: ii("one", "a"), class: "constant column" },
@@ -193,6 +196,17 @@ fn def_for_derived(d: &Def) -> Q {
         Some(names) => {
             let mut q = d.q.clone();
             if let Body::Select(s) = &mut q.body {
+                // a wildcard body: spell the base table's columns out so that they can be renamed
+                if s.items.len() == 1 && matches!(s.items[0], Item::Star) {
+                    let base: &[&str] = match &s.from {
+                        Some(From::Table(t, _)) if t == "u" => &["a", "d"],
+                        Some(From::Table(t, _)) if t == "t" => &["a", "b", "c"],
+                        _ => &[],
+                    };
+                    if base.len() == names.len() {
+                        s.items = base.iter().map(|c| Item::Expr(col(c), None)).collect();
+                    }
+                }
                 for (it, n) in s.items.iter_mut().zip(names.iter()) {
                     if let Item::Expr(e, _) = it {
                         *it = Item::Expr(e.clone(), Some(n.to_string()));
